@@ -383,7 +383,7 @@ impl Parser {
                             }
                         }
                     },
-                    Lexem::Operator(s) if s.eq("rx") => {
+                    Lexem::Operator(s) if s.eq_ignore_ascii_case("rx") => {
                         regexp = true;
                         mode = RootParsingMode::Options;
                     }
@@ -542,7 +542,7 @@ impl Parser {
 
         let lexem = self.next_lexem();
         let mut result = match lexem {
-            Some(Lexem::Operator(s)) if s.as_str() == "between" => {
+            Some(Lexem::Operator(s)) if s.eq_ignore_ascii_case("between") => {
                 let left_between = self.parse_add_sub()?;
 
                 let and_lexem = self.next_lexem();
